@@ -18,6 +18,8 @@ struct Found {
     sig: syn::Signature,
     body: syn::Block,
     line: usize,
+    /// for a closure kernel: the enclosing function
+    outer: Option<(syn::Signature, syn::Block)>,
 }
 
 fn last_ident(p: &syn::Path) -> String {
@@ -85,7 +87,7 @@ fn find_in_items(items: &[Item], loc: &Loc, out: &mut Vec<Found>) -> Result<(), 
                 syn::Expr::Block(b) if b.label.is_none() => b.block.clone(),
                 e => syn::parse_quote!({ #e }),
             };
-            out.push(Found { sig, body, line: cl.or1_token.span.start().line });
+            out.push(Found { sig, body, line: cl.or1_token.span.start().line, outer: Some((f.sig.clone(), f.body.clone())) });
         }
         return Ok(());
     }
@@ -100,14 +102,14 @@ fn find_in_items(items: &[Item], loc: &Loc, out: &mut Vec<Found>) -> Result<(), 
                 }
             }
             (Item::Fn(f), Loc::Free(name)) if f.sig.ident == name => {
-                out.push(Found { sig: f.sig.clone(), body: (*f.block).clone(), line: f.sig.ident.span().start().line });
+                out.push(Found { sig: f.sig.clone(), body: (*f.block).clone(), line: f.sig.ident.span().start().line, outer: None });
             }
             (Item::Trait(t), Loc::Trait(tr, name)) if t.ident == tr => {
                 for ti in &t.items {
                     if let TraitItem::Fn(f) = ti {
                         if f.sig.ident == name {
                             match &f.default {
-                                Some(b) => out.push(Found { sig: f.sig.clone(), body: b.clone(), line: f.sig.ident.span().start().line }),
+                                Some(b) => out.push(Found { sig: f.sig.clone(), body: b.clone(), line: f.sig.ident.span().start().line, outer: None }),
                                 None => return Err(format!("trait method {}::{} has no default body any more", tr, name)),
                             }
                         }
@@ -129,7 +131,7 @@ fn find_in_items(items: &[Item], loc: &Loc, out: &mut Vec<Found>) -> Result<(), 
                 for ii in &i.items {
                     if let ImplItem::Fn(m) = ii {
                         if m.sig.ident == f {
-                            out.push(Found { sig: m.sig.clone(), body: m.block.clone(), line: m.sig.ident.span().start().line });
+                            out.push(Found { sig: m.sig.clone(), body: m.block.clone(), line: m.sig.ident.span().start().line, outer: None });
                         }
                     }
                 }
@@ -139,7 +141,7 @@ fn find_in_items(items: &[Item], loc: &Loc, out: &mut Vec<Found>) -> Result<(), 
                 let e: syn::Expr = syn::parse2(body).map_err(|e| format!("body of macro_rules! {} does not parse as an expression after substitution: {}", mac, e))?;
                 let sig: syn::Signature = syn::parse_quote!(fn macro_body());
                 let line = m.ident.as_ref().map(|i| i.span().start().line).unwrap_or(0);
-                out.push(Found { sig, body: syn::parse_quote!({ #e }), line });
+                out.push(Found { sig, body: syn::parse_quote!({ #e }), line, outer: None });
             }
             (Item::Macro(m), Loc::InMacro { mac, subst, inner }) if m.ident.as_ref().map(|i| i == mac).unwrap_or(false) => {
                 let body = macro_body(m.mac.tokens.clone(), subst).ok_or_else(|| format!("cannot find the body of macro_rules! {}", mac))?;
@@ -150,6 +152,102 @@ fn find_in_items(items: &[Item], loc: &Loc, out: &mut Vec<Found>) -> Result<(), 
         }
     }
     Ok(())
+}
+
+/// the table's function name of a location (the innermost function for closures / macros)
+fn loc_fn_name(l: &Loc) -> Option<&'static str> {
+    match l {
+        Loc::Free(f) => Some(f),
+        Loc::Trait(_, f) => Some(f),
+        Loc::Impl { f, .. } => Some(f),
+        Loc::InMacro { inner, .. } => loc_fn_name(inner),
+        Loc::Closure { outer, .. } => loc_fn_name(outer),
+        Loc::MacroExpr { .. } => None,
+    }
+}
+fn loc_with_fn(l: &Loc, name: &'static str) -> Loc {
+    match l {
+        Loc::Free(_) => Loc::Free(name),
+        Loc::Trait(t, _) => Loc::Trait(t, name),
+        Loc::Impl { ty, tr, .. } => Loc::Impl { ty, tr: *tr, f: name },
+        Loc::InMacro { mac, subst, inner } => Loc::InMacro { mac, subst: subst.clone(), inner: Box::new(loc_with_fn(inner, name)) },
+        Loc::Closure { outer, idx } => Loc::Closure { outer: Box::new(loc_with_fn(outer, name)), idx: *idx },
+        Loc::MacroExpr { .. } => l.clone(),
+    }
+}
+
+/// names of the callees of the calls with `nargs` arguments in a body, in source order (statements under
+/// `#[cfg(vm_memory_verif)]` are not looked into; macro arguments are opaque to syn)
+fn callees(body: &syn::Block, method: bool, nargs: usize) -> Vec<String> {
+    use syn::visit::Visit;
+    struct V {
+        method: bool,
+        nargs: usize,
+        found: Vec<((usize, usize), String)>,
+    }
+    fn hook(attrs: &[syn::Attribute]) -> bool {
+        attrs.iter().any(|a| a.path().is_ident("cfg") && quote::ToTokens::to_token_stream(a).to_string().contains("vm_memory_verif"))
+    }
+    impl<'ast> Visit<'ast> for V {
+        fn visit_expr_method_call(&mut self, mc: &'ast syn::ExprMethodCall) {
+            if hook(&mc.attrs) {
+                return;
+            }
+            if self.method && mc.args.len() == self.nargs {
+                let p = mc.method.span().start();
+                self.found.push(((p.line, p.column), mc.method.to_string()));
+            }
+            syn::visit::visit_expr_method_call(self, mc);
+        }
+        fn visit_expr_call(&mut self, c: &'ast syn::ExprCall) {
+            if hook(&c.attrs) {
+                return;
+            }
+            if !self.method && c.args.len() == self.nargs {
+                if let syn::Expr::Path(p) = &*c.func {
+                    if let Some(seg) = p.path.segments.last() {
+                        let q = seg.ident.span().start();
+                        self.found.push(((q.line, q.column), seg.ident.to_string()));
+                    }
+                }
+            }
+            syn::visit::visit_expr_call(self, c);
+        }
+    }
+    let mut v = V { method, nargs, found: vec![] };
+    v.visit_block(body);
+    v.found.sort();
+    v.found.into_iter().map(|f| f.1).collect()
+}
+
+/// Finds the function of a table entry: by its name, else - a private function a refactoring may have
+/// renamed - through its call site in a public function (`via`).  Returns the definition and, in the second
+/// case, (actual name, table name).
+fn resolve(items: &[Item], loc: &Loc, via: Option<&specs::Via>) -> Result<(Found, Option<(String, String)>), String> {
+    let mut found = vec![];
+    find_in_items(items, loc, &mut found)?;
+    if found.len() == 1 {
+        return Ok((found.pop().unwrap(), None));
+    }
+    let by_name = format!("expected exactly one definition at {:?}, found {}", loc, found.len());
+    let via = match via {
+        Some(v) if found.is_empty() => v,
+        _ => return Err(by_name),
+    };
+    let table_name = loc_fn_name(loc).ok_or_else(|| by_name.clone())?;
+    let (outer, _) = resolve(items, &via.outer, via.outer_via.as_deref()).map_err(|e| format!("{}; its call site: {}", by_name, e))?;
+    let names = callees(&outer.body, via.method, via.nargs);
+    let actual = match names.get(via.nth) {
+        Some(n) => n.clone(),
+        None => return Err(format!("{}; and the function at {:?} has no {} call number {} with {} arguments", by_name, via.outer, if via.method { "method" } else { "path" }, via.nth, via.nargs)),
+    };
+    let leaked: &'static str = Box::leak(actual.clone().into_boxed_str());
+    let mut found = vec![];
+    find_in_items(items, &loc_with_fn(loc, leaked), &mut found)?;
+    if found.len() != 1 {
+        return Err(format!("{}; the call site in {:?} names `{}`, of which {} definitions were found", by_name, via.outer, actual, found.len()));
+    }
+    Ok((found.pop().unwrap(), Some((actual, table_name.to_string()))))
 }
 
 /// `(<matcher>) => { <body> }` (single rule): the body with `$name` replaced per `subst`.
@@ -277,6 +375,22 @@ fn main() {
         }
     }
     let table = table;
+    // private functions found through their call sites under another name: (file, actual name, table name);
+    // calls of the actual name are read as calls of the table name in every kernel of that file
+    let mut fn_renames: Vec<(&str, String, String)> = vec![];
+    for spec in &table {
+        if spec.via.is_none() {
+            continue;
+        }
+        let path = format!("{}/{}", repo, spec.file);
+        if let Ok(file) = std::fs::read_to_string(&path).map_err(|e| e.to_string()).and_then(|s| syn::parse_file(&s).map_err(|e| e.to_string())) {
+            if let Ok((_, Some((actual, tname)))) = resolve(&file.items, &spec.loc, spec.via.as_ref()) {
+                if !fn_renames.iter().any(|(f, a, _)| *f == spec.file && *a == actual) {
+                    fn_renames.push((spec.file, actual, tname));
+                }
+            }
+        }
+    }
     for spec in &table {
         if !modules.contains(&spec.module) {
             modules.push(spec.module);
@@ -287,13 +401,11 @@ fn main() {
         });
         let res: Result<(trans::Out, usize), String> = (|| {
             let file = parsed.as_ref().map_err(|e| e.clone())?;
-            let mut found = vec![];
-            find_in_items(&file.items, &spec.loc, &mut found)?;
-            if found.len() != 1 {
-                return Err(format!("expected exactly one definition at {:?}, found {}", spec.loc, found.len()));
-            }
-            let f = &found[0];
-            let out = trans::translate(spec, &f.sig, &f.body, &sigs).map_err(|e| match e {
+            let (f, _) = resolve(&file.items, &spec.loc, spec.via.as_ref())?;
+            let f = &f;
+            let renames: Vec<(String, String)> = fn_renames.iter().filter(|(fl, _, _)| *fl == spec.file).map(|(_, a, t)| (a.clone(), t.clone())).collect();
+            let info = trans::Info { items: &file.items, fn_renames: &renames, outer: f.outer.as_ref() };
+            let out = trans::translate(spec, &f.sig, &f.body, &sigs, &info).map_err(|e| match e {
                 trans::TErr::Unsupported(s) => format!("unsupported construct: {}", s),
                 trans::TErr::NeedMonad => "internal: no translation mode applies".to_string(),
             })?;
@@ -302,6 +414,9 @@ fn main() {
         let entry = defs.entry(spec.module).or_default();
         match res {
             Ok((out, line)) => {
+                for a in &out.aux {
+                    entry.push(format!("{}\n", a));
+                }
                 entry.push(format!("(* {}:{}  fn {} *)\n{}\n", spec.file, line, spec.rust, out.def));
                 status.push(format!(
                     "{{\"module\": {}, \"kernel\": {}, \"file\": {}, \"line\": {}, \"ok\": true, \"monadic\": {}}}",
